@@ -181,3 +181,12 @@ def running_selection(ctx, rule, scope_pred):
                    "after the running selection may have moved, an element is still fetched through the initial index (line %s): the next "
                    "candidate is compared with a stale element and the wrong child is promoted" % bad[0].line, f.loc())
     ctx.floor(rule + ".selection_loops", n, 1)
+    # O6: DISTINCT uses the per-value hash vector as the row's identity (no equality re-check), so it must not be computed with the
+    # join hash, which deliberately conflates Int with Float (i as f64) and Null with FALSE; that hash may only be called from the
+    # hash-join code, where a hash match is re-checked for equality.
+    users = [f for f in m.fns.values() if any(c.name.endswith("query::helpers::hash_owned_value_normalized") for c in f.calls)]
+    bad = [f for f in users if "hash_join" not in f.id]
+    ctx.ob("O6.NORMALIZING-HASH-WHO", "hash_owned_value_normalized", not bad and bool(users),
+           "called only from hash-join code (%d caller(s))" % len(users) if not bad and users else
+           "the type-conflating join hash is used as a row identity outside the hash join (%s): DISTINCT drops rows whose values differ but "
+           "hash alike (integers above 2^53, NULL vs FALSE)" % (bad[0].id if bad else "no caller found"), (bad[0] if bad else m.fn("database::query::helpers::hash_owned_value_normalized")).loc())
